@@ -61,8 +61,8 @@ func TestVerif_C11(t *testing.T) {
 	if r.Thorough() {
 		small = []int{0, 1, 2, 3, 4, 5, 8, 16, 33, 64}
 	}
-	nBig, nDirected := r.Pick(4, 14), r.Pick(60, 160)
-	r.SetRule(fmt.Sprintf("engine with two shards: payload lengths %v with every request of the four modes (values 0..len+2) plus huge values, %d larger payloads with %d boundary-directed requests each; objects put through StorageEngine.Put (combined files; >128 KiB plain files) or planted as zstd / combined files in one shard; StorageEngine.GetRangeStream, ReadPayloadRange, ReadObject, GetRange with/without header interception; then batches of 2..8 range reads with overlapping answer lifetimes (seeded schedule of issue / read chunk / abandon / close) and rounds of concurrent reads, judged by the same resolver; distinct = (api, format, length class, mode, request shape)", small, nBig, nDirected))
+	nBig, nDirected, nMB := r.Pick(4, 14), r.Pick(60, 160), r.Pick(2, 5)
+	r.SetRule(fmt.Sprintf("engine with two shards: payload lengths %v with every request of the four modes (values 0..len+2) plus huge values, %d larger payloads with %d boundary-directed requests each; objects put through StorageEngine.Put (combined files; >128 KiB plain files) or planted as zstd / combined files in one shard, among them %d compressed objects whose zstd frame has many blocks (payloads of 0.3..1.5 MiB, compressed the way old nodes did); StorageEngine.GetRangeStream, ReadPayloadRange, ReadObject, GetRange with/without header interception; then batches of 2..8 range reads with overlapping answer lifetimes (seeded schedule of issue / read chunk / abandon / close) and rounds of concurrent reads, judged by the same resolver; distinct = (api, format, length class, mode, request shape)", small, nBig, nDirected, nMB))
 	ctx := context.Background()
 	cnr, owner := verifkit.RandCID(r.Rand("ids", 0)), verifkit.RandUser(r.Rand("ids", 1))
 
@@ -132,6 +132,22 @@ func TestVerif_C11(t *testing.T) {
 			return append(vf11.Directed(uint64(l), vf11.Marks(o), r.Rand("directed", b), nDirected), vf11.Huge(uint64(l), r.Rand("hugebig", b))...)
 		})
 	}
+	// compressed objects whose frame has many blocks (vf11/c11_multiblock.go), in shard 0 and 1 in turn
+	mbFiles, mbMembers := vf11.MultiBlockSet(r, "engine", cnr, owner, nMB)
+	for i := range mbFiles {
+		s := shards[i%2]
+		pair := []*vf11.Obj{mbFiles[i], mbMembers[i]}
+		if err := vf11.PlantMultiBlock(s.root, s.depth, pair[:1], pair[1:]); err != nil {
+			t.Fatal(err)
+		}
+		for j, o := range pair {
+			if err := s.sh.VerifC11MetaPut(o.Object.CutPayload()); err != nil {
+				t.Fatalf("harness meta put: %v", err)
+			}
+			items = append(items, item{o, vf11.MultiBlockReqs(r, "engine", 2*i+j, o, nDirected), s.fst})
+		}
+	}
+	nLarge := 3*nBig + 2*nMB // the items at the end of the list that have larger payloads
 	for si, list := range comb {
 		for i := 0; i < len(list); i += 4 {
 			grp := list[i:min(i+4, len(list))]
@@ -232,7 +248,7 @@ func TestVerif_C11(t *testing.T) {
 	vf11.OverlapPhase(r, "engine", 0, r.Pick(300, 1500), r.Pick(2, 10), func(rng *rand.Rand) vf11.Call {
 		o := items[rng.IntN(len(items))].o
 		if rng.IntN(2) == 0 { // larger payloads half of the time
-			o = items[len(items)-1-rng.IntN(3*nBig)].o
+			o = items[len(items)-1-rng.IntN(nLarge)].o
 		}
 		req := vf11.RandReq(rng, o)
 		withHook := rng.IntN(2) == 0
